@@ -393,6 +393,10 @@ class HistogramBase(abc.ABC):
                 warnings.warn("Negative frequencies in the histogram.")
             else:
                 raise ValueError("Cannot have negative frequencies.")
+        if getattr(self, "_dtype", None) is not None and frequencies.dtype != self._dtype:
+            # Keep dtype, frequencies and errors2 in agreement (promote, never truncate)
+            self._coerce_dtype(frequencies.dtype)
+            frequencies = frequencies.astype(self._dtype)
         self._frequencies = frequencies
 
     @property
@@ -444,6 +448,10 @@ class HistogramBase(abc.ABC):
             raise ValueError("Square errors must have same dimension as bins.")
         if np.any(array < 0):
             raise ValueError("Cannot have negative square errors.")
+        if getattr(self, "_dtype", None) is not None and array.dtype != self._dtype:
+            # Keep dtype, frequencies and errors2 in agreement (promote, never truncate)
+            self._coerce_dtype(array.dtype)
+            array = array.astype(self._dtype)
         self._errors2 = array
 
     @property
